@@ -290,3 +290,104 @@ Example ex_cheld :
   c19_ok (CHeld [(0, 1); (1, 1); (2, 1)]%N [[(0, 2); (1, 1); (2, 1)]; [(0, 2); (2, 1)]]%N [(0, 1); (1, 1); (2, 1)]%N) = true /\
   c19_ok (CHeld [(0, 1); (1, 1); (2, 1)]%N [[(0, 2); (1, 1); (2, 1)]; [(0, 2); (2, 1)]]%N [(0, 2); (2, 1); (2, 1)]%N) = false.
 Proof. vm_compute. split; reflexivity. Qed.
+
+(** ---- OWNERSHIP of results (round 3): what Search / StreamSearch return holds no view of shard memory.
+    Model/ResultOwn.v; the type table [result_ty] (zoekt.SearchResult with every nested struct) and copyFiles' program
+    [copy_prog] are GENERATED from the current sources (translator/resultfields -> Generated/ResultFields.v). *)
+From Coq Require Import String.
+From ZV Require Import Model.ResultOwn Proofs.ResultOwn Generated.ResultFields Model.C19Cases.
+
+(** obligation on the generated tables, by computation: copyFiles consists only of statements the model understands,
+    its program replaces EVERY []byte field below zoekt.SearchResult by a fresh copy (a new []byte field that copyFiles
+    forgets, or a copy that lands in a loop variable, makes this false), copySlice has its expected shape, and no
+    field below SearchResult.Files has a type the translator could not look into. *)
+Theorem C19_copyfiles_copies_every_bytes_field :
+  copy_covers result_ty copy_root copy_prog = true /\ copy_slice_recognised = true /\
+  filter (has_prefix "Files"%string) (external_paths result_ty) = [].
+Proof. vm_compute. repeat split. Qed.
+Print Assumptions C19_copyfiles_copies_every_bytes_field.
+
+(** A result of the shape of zoekt.SearchResult whose byte slices were all readable when the search produced it
+    (shards mapped): after copyFiles every byte slice reads the same bytes under ANY later state [sh'] of the shard
+    mappings — unmapped (a read would fault), overwritten, replaced by another version.  Same fields, same bytes. *)
+Theorem C19_result_survives_unload : forall (sh : shards) (hp : heap) (r : result) snap,
+  conforms result_ty r -> read_all sh hp r = Ok snap ->
+  exists hp' r', copy_result sh hp (copied_paths copy_root copy_prog) r = Ok (hp', r') /\
+                 map fst r' = map fst r /\
+                 forall sh', read_all sh' hp' r' = Ok snap.
+Proof. exact (result_survives_unload result_ty copy_root copy_prog (proj1 C19_copyfiles_copies_every_bytes_field)). Qed.
+Print Assumptions C19_result_survives_unload.
+
+(** copyFiles "tidied" with local pointers and a range VALUE variable for the chunk matches (the round-3 seeded
+    change): `for _, cm := range f.ChunkMatches { copySlice(&cm.Content) }` copies into the loop variable. *)
+Definition loopvar_prog : list stmt :=
+  let sr := EVar "sr"%string in let f := EVar "f"%string in let lm := EVar "lm"%string in
+  [SRangeIdx "i" (EField sr "Files") [
+     SAddr "f" (EIndex (EField sr "Files") "i");
+     SCopySlice (EField f "Content"); SCopySlice (EField f "Checksum");
+     SRangeIdx "l" (EField f "LineMatches") [
+       SAddr "lm" (EIndex (EField f "LineMatches") "l");
+       SCopySlice (EField lm "Line"); SCopySlice (EField lm "Before"); SCopySlice (EField lm "After")];
+     SRangeVal "_" "cm" (EField f "ChunkMatches") [SCopySlice (EField (EVar "cm") "Content")]]]%string.
+(** the same tidying done right (index loop + pointer to the element): a harmless refactor *)
+Definition pointer_prog : list stmt :=
+  let sr := EVar "sr"%string in let f := EVar "f"%string in
+  [SRangeIdx "i" (EField sr "Files") [
+     SAddr "f" (EIndex (EField sr "Files") "i");
+     SCopySlice (EField f "Content"); SCopySlice (EField f "Checksum");
+     SRangeVal "l" "lmv" (EField f "LineMatches") [
+       SCopySlice (EField (EIndex (EField f "LineMatches") "l") "Line");
+       SAddr "lm" (EIndex (EField f "LineMatches") "l");
+       SCopySlice (EField (EVar "lm") "Before"); SCopySlice (EField (EVar "lm") "After")];
+     SRangeIdx "c" (EField f "ChunkMatches") [
+       SAddr "p" (EField (EIndex (EField f "ChunkMatches") "c") "Content"); SCopySlice (EVar "p")]]]%string.
+
+Definition ex_shard1 : list N := [110; 101; 101; 100; 108; 101; 10; 120; 121; 122]%N.
+Definition ex_result : result :=
+  [("Files[].Content", mkBS (RShard 1) 0 10); ("Files[].Checksum", mkBS (RShard 1) 7 3);
+   ("Files[].LineMatches[].Line", mkBS (RShard 1) 0 6); ("Files[].ChunkMatches[].Content", mkBS (RShard 1) 0 7)]%string.
+Definition ex_mapped : shards := fun id => if N.eqb id 1 then Some ex_shard1 else None.
+Definition ex_unmapped : shards := fun _ => None.
+Definition ex_overwritten : shards := fun id => if N.eqb id 1 then Some (map (fun b => N.lxor b 255) ex_shard1) else None.
+
+(** with the loop-variable copy the statement is FALSE: ChunkMatches[].Content stays a view; reading the result after
+    the shard was unmapped faults, after its memory was overwritten it shows other bytes *)
+Theorem C19_result_survives_unload_loopvar_copy_refuted :
+  copy_covers result_ty "sr" loopvar_prog = false /\
+  a_local (run_prog "sr" loopvar_prog) = ["Files[].ChunkMatches[].Content"%string] /\
+  exists (sh : shards) (hp : heap) (r : result) snap hp' r',
+    conforms result_ty r /\ read_all sh hp r = Ok snap /\
+    copy_result sh hp (copied_paths "sr" loopvar_prog) r = Ok (hp', r') /\
+    read_all ex_unmapped hp' r' = Panic 1 /\
+    exists other, read_all ex_overwritten hp' r' = Ok other /\ other <> snap.
+Proof.
+  split; [vm_compute; reflexivity|]. split; [vm_compute; reflexivity|].
+  exists ex_mapped, [], ex_result. eexists. eexists. eexists.
+  split; [apply conforms_b_ok; vm_compute; reflexivity|].
+  split; [vm_compute; reflexivity|]. split; [vm_compute; reflexivity|]. split; [vm_compute; reflexivity|].
+  eexists. split; [vm_compute; reflexivity|]. intro H. discriminate H.
+Qed.
+Print Assumptions C19_result_survives_unload_loopvar_copy_refuted.
+
+(** non-vacuity: the hypotheses of C19_result_survives_unload hold for a result with views in four fields, and the
+    copied result reads the same under unmapping and overwriting; the pointer refactor covers every field; the runner
+    accepts a faithful observation and rejects a surviving view *)
+Example ex_result_survives :
+  conforms result_ty ex_result /\
+  exists snap hp' r', read_all ex_mapped [] ex_result = Ok snap /\
+    copy_result ex_mapped [] (copied_paths copy_root copy_prog) ex_result = Ok (hp', r') /\
+    read_all ex_unmapped hp' r' = Ok snap /\ read_all ex_overwritten hp' r' = Ok snap /\ List.length snap = 4.
+Proof.
+  split; [apply conforms_b_ok; vm_compute; reflexivity|].
+  eexists. eexists. eexists. split; [vm_compute; reflexivity|]. split; [vm_compute; reflexivity|].
+  split; [vm_compute; reflexivity|]. split; vm_compute; reflexivity.
+Qed.
+Example ex_pointer_refactor_covers : copy_covers result_ty "sr" pointer_prog = true.
+Proof. vm_compute. reflexivity. Qed.
+Example ex_xown :
+  let tb := bytes_paths result_ty in let ts := string_paths result_ty in
+  let raw := ["Files[].Checksum"; "Files[].ChunkMatches[].Content"]%string in
+  c19x_ok (XOwn tb ts raw [] [] []) = true /\
+  c19x_ok (XOwn tb ts raw [] ["Files[].ChunkMatches[].Content"%string] []) = false /\
+  c19x_ok (XOwn (tl tb) ts raw [] [] []) = false.
+Proof. vm_compute. repeat split. Qed.
